@@ -63,6 +63,10 @@ def ret_label(p):
         if a[0] == 'agg' and a[2] == 'core::result::Result' and a[3] == 'Err' and a[4]:
             # `Err(e)?` with e known on this path (built by a combinator that the analysis executed)
             return _err_label(strip(a[4][0][1]))
+        if is_call(a, r'FromResidual.*::from_residual$'):
+            # the early return of an inner `?` handed on by an outer one
+            inner_path = type('P', (), {'outcome': ('return', a)})()
+            return ret_label(inner_path)
         src = peel_result(a[1][1]) if a[0] == 'field' else ('unk', '')
         return 'Err:propagated(%s)' % (src[1].rsplit('::', 1)[-1] if src[0] == 'call' else '?')
     return 'other:%s' % show(v)[:80]
@@ -166,7 +170,8 @@ def counting_discipline(chk, F, rule, cfg, fn, rows):
                    what='counting of the selected pattern', found={'calls': len(nr), 'receiver': show(recv)}, expected='one next_responder on the pattern returned by the selector')
             if r.outcome == 'Ok:Responder':
                 v = strip(strip(r.path.outcome[1])[4][0][1])
-                er = dict(strip(v[4][0][1])[4]) if v[0] == 'agg' and strip(v[4][0][1])[0] == 'agg' else {}
+                # EvalResult::Responder(EvalResponder { .. }) or EvalResult::Responder { .. }: the same three named fields either way
+                er = dict(strip(v[4][0][1])[4]) if v[0] == 'agg' and v[4] and strip(v[4][0][1])[0] == 'agg' and 'dyn_responder' in dict(strip(v[4][0][1])[4]) else (dict(v[4]) if v[0] == 'agg' else {})
                 dr = strip(er.get('dyn_responder', ('unk', '')))
                 okd = mentions(dr, lambda x: is_call(x, r'CallPattern::next_responder$'))
                 fm = strip(er.get('fn_mocker', ('unk', '')))
@@ -283,7 +288,9 @@ def eval_table(chk, F, rule, cfg):
                 inputs_ok = strip(fields.get('1')) == ('param', 0, 2)
                 lab += '' if inputs_ok else '[inputs not handed back unchanged: %s]' % show(fields.get('1'))
                 c = strip(fields['0'])
-                if c[3] == 'Answer':
+                if c[0] != 'agg':
+                    lab += '[continuation not a literal variant on this path: %s]' % show(c)[:60]
+                elif c[3] == 'Answer':
                     a = strip(c[4][0][1])
                     ok = is_call(a, r'AnswerClosure<F> as core::clone::Clone>::clone$') and field_path(a[2][0])[1][-1:] == ['answer_closure'] and \
                         mentions(a, lambda x: is_call(x, r'DynCtx::downcast_responder$'))
@@ -292,7 +299,7 @@ def eval_table(chk, F, rule, cfg):
                 o = strip(fields['0'])
                 ok = o[0] == 'field' and o[2] == '0' and strip(o[1])[0] == 'as' and strip(o[1])[2] == 'Some' and is_call(strip(strip(o[1])[1]), r'Returner::get_output$')
                 lab += '' if ok else '[output fabricated: %s]' % show(o)
-        if lab == 'Err:ExplicitPanic':
+        if lab == 'Err:ExplicitPanic' and v[0] == 'agg' and v[4] and strip(v[4][0][1])[0] == 'agg':
             e = dict(strip(v[4][0][1])[4])
             m = strip(e['msg'])
             ok = is_call(m, r'Clone>::clone$') and mentions(m, lambda x: x[0] == 'as' and x[2] == 'Panic')
@@ -518,7 +525,7 @@ def selector_rules(chk, F, cfg, r_scan='R01.1', r_pure='R01.2', r_ord='R04.5', r
                 chk.ob(r_ord, 'the arguments are checked against exactly the slot\'s pattern', ok, config=cfg, fn=fn, site='matcher-arg', what='matcher applied to another pattern',
                        found=show(pat), expected='the pattern returned by find_call_pattern_for_call_order')
                 rep = strip(strip(ms[0].data[2][1])[4][1][1]) if strip(ms[0].data[2][1])[0] == 'agg' else ('unk', '')
-                chk.ob('R06.5', 'ordered evaluation runs the matcher with diagnostics enabled', rep[0] == 'agg' and rep[3] == 'Some', config=cfg, fn=fn, site='matcher-reporter',
+                chk.ob('R06.5', 'ordered evaluation runs the matcher with diagnostics enabled', reporter_kind(rep) == 'on', config=cfg, fn=fn, site='matcher-reporter',
                        what='reporter', found=show(rep))
             if ret_label(p) == 'Ok:Some':
                 v = strip(strip(strip(p.outcome[1])[4][0][1])[4][0][1])
@@ -612,7 +619,7 @@ def loop_scan(chk, F, r_scan, r_pure, cfg, fn, any_paths, root_pred):
                 if not mentions(elem, lambda x: x == cur):
                     ok, why = False, 'matcher applied to something other than the current element: %s' % show(elem)[:80]
                     break
-                chk.ob('R06.5', 'unordered selection runs the matcher without diagnostics', rep[0] == 'agg' and rep[3] == 'None', config=cfg, fn=fn, site='matcher-reporter', what='reporter', found=show(rep))
+                chk.ob('R06.5', 'unordered selection runs the matcher without diagnostics', reporter_kind(rep) == 'off', config=cfg, fn=fn, site='matcher-reporter', what='reporter', found=show(rep))
                 # what the path decides about this matcher result
                 res = None
                 for d in p.decisions:
@@ -651,6 +658,22 @@ def loop_scan(chk, F, r_scan, r_pure, cfg, fn, any_paths, root_pred):
                what='loop scan: %s' % why if not ok else 'loop scan', found=why if not ok else None, expected='for (i, p) in call_patterns.iter().enumerate(): first accepted => Some((i, p)); rejected => next; end => None')
     chk.floor(r_scan, 'paths of the loop-form scan', n, 4, config=cfg)
     chk.sample({'fn': fn.defp, 'config': cfg, 'unordered_scan': 'explicit forward first-hit loop over fn_mocker.call_patterns'})
+
+
+def reporter_kind(rep):
+    """the diagnostics argument of a matcher call: 'off' = none / a disabled reporter, 'on' = an enabled reporter"""
+    rep = strip(rep)
+    if rep[0] == 'agg' and rep[2] == 'core::option::Option':
+        if rep[3] == 'None':
+            return 'off'
+        rep = strip(rep[4][0][1]) if rep[4] else rep
+    if mentions(rep, lambda x: is_call(x, r'MismatchReporter::new_enabled$')):
+        return 'on'
+    if mentions(rep, lambda x: is_call(x, r'MismatchReporter::new_disabled$')):
+        return 'off'
+    if rep[0] == 'agg' and rep[3] == 'Some':
+        return 'on'
+    return None
 
 
 def accept_closure(chk, F, rule, cfg, cf, via):
@@ -695,7 +718,7 @@ def accept_closure(chk, F, rule, cfg, cf, via):
     ], config=cfg)
     for bb, t in cf.calls():
         n = symex.callee_name(t)
-        ok = bool(re.search(r'^core::ops::Fn::call$', n))
+        ok = bool(re.search(r'^core::ops::Fn::call$|MismatchReporter::new_disabled$', n))      # (building a switched-off reporter for the matcher consults nothing)
         chk.ob(rule, 'the accept decision only consults the input matcher (no counters, no exhaustion state)', ok, config=cfg, fn=cf, site='accept-call:%s' % n,
                what='accept predicate calls %s' % n, found=n, expected='match_inputs(call_pattern, None) only')
     for bb, s in cf.stmts():
@@ -707,7 +730,7 @@ def accept_closure(chk, F, rule, cfg, cf, via):
     for p in paths[:1]:
         for e in p.calls(r'core::ops::Fn::call$'):
             rep = strip(strip(e.data[2][1])[4][1][1]) if strip(e.data[2][1])[0] == 'agg' else ('unk', '')
-            chk.ob('R06.5', 'unordered selection runs the matcher without diagnostics', rep[0] == 'agg' and rep[3] == 'None', config=cfg, fn=cf, site='matcher-reporter', what='reporter', found=show(rep))
+            chk.ob('R06.5', 'unordered selection runs the matcher without diagnostics', reporter_kind(rep) == 'off', config=cfg, fn=cf, site='matcher-reporter', what='reporter', found=show(rep))
 
 
 # ------------------------------------------------------------------------------------------
